@@ -314,11 +314,14 @@ def fresh_workdir(tag):
     return d
 
 
-def import_repo():
-    """Import file_builder from the current /repo working tree."""
+def import_repo(force=False):
+    """Import file_builder from the current /repo working tree (once per process)."""
     if REPO not in sys.path:
         sys.path.insert(0, REPO)
-    for m in [m for m in sys.modules if m == "file_builder" or m.startswith("file_builder.")]:
-        del sys.modules[m]
+    m = sys.modules.get("file_builder")
+    if m is not None and not force and os.path.dirname(os.path.dirname(os.path.abspath(m.__file__))) == os.path.abspath(REPO):
+        return m
+    for n in [n for n in sys.modules if n == "file_builder" or n.startswith("file_builder.")]:
+        del sys.modules[n]
     import file_builder  # noqa
     return file_builder
